@@ -290,7 +290,7 @@ type txPlan struct {
 	adders, removers    int
 	clearers            int
 	selectors, readers  int
-	readds              int // how many times the adders go over their slice
+	readds              int // epochs: the writers run this many times, with a quiescent instant (all monitors) after each
 	delayWeight         uint64
 	addOnly             bool // monitors: all present, lists = sorted sets
 	quiescent           bool // monitors: CountTx = |Keys|, NumBytes = sum Size
@@ -477,7 +477,8 @@ func runTxPlan(c *collector, roundSeed int64, scale int, pl txPlan) {
 	})
 	for epoch := 0; epoch < pl.readds; epoch++ {
 		spawnWriters(epoch)
-		if !waitTimeout(&p.main, 90*time.Second) {
+		if !waitTimeout(&p.main, c.watchdog) {
+			p.mainTimedOut = true
 			p.join()
 			return
 		}
@@ -499,6 +500,10 @@ func runTxPlan(c *collector, roundSeed int64, scale int, pl txPlan) {
 	}
 
 	quiescentChecks(c, p, pl, u, cache, nAdd.Load(), nRem.Load())
+	if !p.failed.Load() && c.round == 0 {
+		c.sample(fmt.Sprintf("%s round 0: %d goroutines, %d AddTx, %d removals, %d selections judged (%d non-empty), %d ordered-list probes, %d quiescent instants; at the end CountTx=%d=|Keys|, NumBytes=%d",
+			pl.name, p.nGo, nAdd.Load(), nRem.Load(), nSel.Load(), selNonEmpty.Load(), nProbe.Load(), pl.readds+1, cache.CountTx(), cache.NumBytes()))
+	}
 }
 
 // quiescentChecks: no AddTx / RemoveTxByHash / Clear / eviction is in flight
@@ -617,7 +622,7 @@ func phaseTxAddOnly(c *collector, rs int64, scale int) {
 func phaseTxMixed(c *collector, rs int64, scale int) {
 	rng := rand.New(rand.NewSource(rs ^ 0x22))
 	runTxPlan(c, rs, scale, txPlan{name: "txcache-mixed", cfg: baseCfg(rng), nSenders: 5, perSender: 24, adders: 6, removers: 3, selectors: 2, readers: 3,
-		readds: 4, delayWeight: 24, quiescent: true, indexesAgree: true})
+		readds: 10, delayWeight: 24, quiescent: true, indexesAgree: true})
 }
 
 // per-sender limits hit: the bulk removal of the dropped hashes runs outside mutTxOperation
@@ -626,7 +631,7 @@ func phaseTxLimits(c *collector, rs int64, scale int) {
 	cfg := baseCfg(rng)
 	cfg.CountPerSenderThreshold = 5
 	runTxPlan(c, rs, scale, txPlan{name: "txcache-limits", cfg: cfg, nSenders: 4, perSender: 30, uniform: true, adders: 6, removers: 2, selectors: 2, readers: 4,
-		readds: 3, delayWeight: 24, quiescent: true, perSenderCountLimit: 5})
+		readds: 4, delayWeight: 24, quiescent: true, perSenderCountLimit: 5})
 }
 
 // eviction enabled with low thresholds: eviction runs outside mutTxOperation
@@ -638,7 +643,7 @@ func phaseTxEvict(c *collector, rs int64, scale int) {
 	cfg.NumBytesThreshold = []uint32{2500, 6000, 1 << 28}[rng.Intn(3)]
 	cfg.NumItemsToPreemptivelyEvict = []uint32{1, 3, 7}[rng.Intn(3)]
 	runTxPlan(c, rs, scale, txPlan{name: "txcache-evict", cfg: cfg, nSenders: 8, perSender: 18, adders: 8, removers: 2, selectors: 2, readers: 3,
-		readds: 4, delayWeight: 32, quiescent: true})
+		readds: 6, delayWeight: 32, quiescent: true})
 }
 
 // everything plus Clear: safety and the selection monitors only
@@ -660,4 +665,74 @@ func phaseTxDiagnose(c *collector, rs int64, scale int) {
 	cfg.CountThreshold = 40
 	runTxPlan(c, rs, scale, txPlan{name: "txcache-diagnose", cfg: cfg, nSenders: 4, perSender: 12, adders: 4, removers: 1, selectors: 1, readers: 2,
 		readds: 2, delayWeight: 16, quiescent: true, trace: true})
+}
+
+// ---------------------------------------------------------------- a directed schedule (observation, not a C14 monitor)
+
+// obsEvictReadd: eviction removes its batch from the sender lists, then — after the pause point
+// "txcache.evict.betweenIndexes" — from the hash index. An AddTx of one of those transactions that
+// completes inside that window (here: performed by the pause hook itself, i.e. a complete AddTx of
+// "another goroutine" while the evicting one is paused between two statements) re-inserts it into both
+// indexes; the resumed eviction then deletes it from the hash index only. C14's text claims the
+// counters, not the agreement of the two indexes, under eviction: this is reported as an observation.
+func obsEvictReadd(c *collector) {
+	p := c.newPhase("obs-evict-readd", 0, 1)
+	defer p.guard("obs-evict-readd")
+	rng := p.rng()
+	u := makeUniverse(rng, 2, 6, true)
+	cfg := baseCfg(rng)
+	cfg.EvictionEnabled = true
+	cfg.CountThreshold = 4
+	cfg.NumItemsToPreemptivelyEvict = 2
+	cache, err := txcache.NewTxCache(cfg, u.hst)
+	if err != nil {
+		return
+	}
+	var added []*txSpec
+	done := false
+	var readded *txSpec
+	txcache.VerifSetPauseHook(func(point string) {
+		if point != "txcache.evict.betweenIndexes" || done {
+			return
+		}
+		done = true
+		for _, t := range added {
+			if !cache.Has(t.hash) { // already gone from the hash index: a victim of this pass
+				readded = t
+				cache.AddTx(t.wrapped())
+				return
+			}
+		}
+	})
+	defer uninstallHook()
+	for _, t := range u.txs {
+		cache.AddTx(t.wrapped())
+		added = append(added, t)
+		if done {
+			break
+		}
+	}
+	if readded == nil {
+		c.add("obs_evict_readd_not_reached", 1)
+		return
+	}
+	inList := false
+	for _, w := range cache.GetTransactionsPoolForSender(string(readded.sender)) {
+		if string(w.TxHash) == string(readded.hash) {
+			inList = true
+		}
+	}
+	byHash := cache.Has(readded.hash)
+	keys := len(cache.Keys())
+	if inList && !byHash {
+		c.add("obs_evict_readd_divergence", 1)
+		c.sample(fmt.Sprintf("observation (not a C14 claim): AddTx(%s) completing while an eviction is paused at txcache.evict.betweenIndexes leaves it in its sender's list but not reachable by hash (RemoveTxByHash(%s) = %v); CountTx=%d=|Keys|=%d still agree",
+			readded.hash, readded.hash, cache.RemoveTxByHash(readded.hash), cache.CountTx(), keys))
+	} else {
+		c.add("obs_evict_readd_consistent", 1)
+	}
+	c.eval("quiescent_counters")
+	if cache.CountTx() != uint64(keys) {
+		p.failf("monitor", "directed schedule evict/re-add: CountTx=%d but %d hashes are reachable", cache.CountTx(), keys)
+	}
 }
